@@ -144,7 +144,7 @@ for _k in ("update", "static_request", "regenerate"):
     _edit(_k)
 
 
-@task("static.gfi.project", props=["C10", "C34"], functions=FUNCS)
+@task("static.gfi.project", props=["C10", "C34", "C25"], functions=FUNCS)
 def t_project(E):
     """project sums the sub-projections: executed on a concrete two-site trace (the loop is over a Python dict)"""
     z3, T = E.z3, E.I.T
@@ -159,7 +159,10 @@ def t_project(E):
     sx = T.sel_sub(s.t, E.I.to_u("x"))
     syz = T.sel_sub(T.sel_sub(s.t, E.I.to_u("y")), E.I.to_u("z"))
     E.prove("C10.StaticGenerativeFunction.project.sums_subprojections_with_subselections",
-            E.eq(p, SReal(T.proj(g1, t1.t, sx) + T.proj(g2, t2.t, syz))))
+            E.eq(p, SReal(T.proj(g1, t1.t, sx) + T.proj(g2, t2.t, syz))),
+            # (C25: Marginal.random_weighted's weight is score - project(~selection) of the wrapped function's trace: a
+            # selection that keeps part of a callee is weighed correctly only if project recurses with the sub-selection)
+            also=["C25"])
     E.prove("C34.StaticTrace.get_inner_trace.returns_site_trace", E.And(
         E.eq(E.method(old, "get_subtrace", "x"), t1), E.eq(E.method(old, "get_subtrace", ("y", "z")), t2)))
     E.prove("C02.StaticTrace.get_score.two_sites", E.eq(E.method(old, "get_score"), SReal(T.tr_score(t1.t) + T.tr_score(t2.t))))
